@@ -163,9 +163,10 @@ func (c *Class) Evaluation(
 	nextFrame := c.getNextFrame(ctx)
 	class := nextT.ToString()
 
-	// `class Outer::` - a name with an empty component is no name (and would
+	// `class Outer::`, `class :sym`, `class key:` - a name with an empty component
+	// or a colon at either end is no name (and would
 	// put the record separator into the editor records)
-	if strings.HasSuffix(class, "::") || strings.Contains(class, ":::") {
+	if strings.HasPrefix(class, ":") || strings.HasSuffix(class, ":") || strings.Contains(class, ":::") {
 		return fmt.Errorf("syntax error: '%s' is not a class name", class)
 	}
 
